@@ -16,7 +16,7 @@ func TestC01SingleBuild(t *testing.T) {
 	runCheck(t, "C01", "C01SingleBuild", c01Rule, func(c *Case) {
 		noop := c.Weighted("NoOp-backend", 7, 1) == 1 // the single-build oracle does not look at the backend
 
-		propFailoverSched(c, scenOpts{maxKeys: 3, minGets: 2, maxGets: 6, skipRead: true, clock: 4, external: 2, prefail: true, postActions: true, errKinds: true, faults: 1,
+		propFailoverSched(c, scenOpts{maxKeys: 3, minGets: 2, maxGets: 6, skipRead: true, clock: 4, external: 2, prefail: true, postActions: true, errKinds: true, faults: 1, nested: true,
 			forceCfg: func(cfg *foCfg) { cfg.noopBackend = noop && cfg.variant != 2 }}, nil)
 	})
 }
